@@ -231,6 +231,23 @@ def run(ctx):
         cli("cli/multibyte", ["hash", "transaction", "-", "--signature=" + t], stdin=b'{"nonce":0,"gasPrice":0,"gas":0,"value":0,"data":"0x","chainId":1}')
         cli("cli/multibyte", ["hash", "transaction", "-", "--signature=0x" + t], stdin=b'{"nonce":0,"gasPrice":0,"gas":0,"value":0,"data":"0x","chainId":1}')
         cli("cli/multibyte", ["new", "-l", t])
+    # long non-ASCII text in every place that is echoed in an error message: 2-, 3- and 4-byte characters, total lengths around
+    # 2^7 .. 2^12 bytes with every alignment (messages that are shortened, wrapped or padded at a byte offset)
+    for ch in ("é", "€", "😀"):
+        for total in (120, 250, 500, 1000, 2040, 4090):
+            for pad in range(len(ch.encode()) + 1):
+                t = "a" * pad + ch * (total // len(ch.encode()))
+                cli("cli/long-non-ascii", ["address", "--mnemonic", phrase, "--hd-path=m/44'/60'/0'/0/" + t])
+                if pad == 0:
+                    cli("cli/long-non-ascii", ["address", "--mnemonic", t])
+                    cli("cli/long-non-ascii", ["address", "--mnemonic", " ".join(["abandon"] * 11 + [t])])
+                    cli("cli/long-non-ascii", ["sign", "--mnemonic", phrase, "raw", "0x" + t])
+                    cli("cli/long-non-ascii", ["hash", "typeddata", "-"], stdin=json.dumps(dict(TYPED, primaryType=t)).encode())
+                    cli("cli/long-non-ascii", ["hash", "transaction", "-"], stdin=('{"nonce":"%s"}' % t).encode())
+                    cli("cli/long-non-ascii", ["hash", "transaction", "-", "--signature=0x" + t], stdin=b'{"nonce":0,"gasPrice":0,"gas":0,"value":0,"data":"0x","chainId":1}')
+                    cli("cli/long-non-ascii", ["hex", "decode"], stdin=("0x" + t).encode())
+                    cli("cli/long-non-ascii", ["hash", "message", "/nonexistent/" + t[:80]])
+                    cli("cli/long-non-ascii", ["new", "--vanity-prefix=0x" + t, "-j", "0"], env=dict(LD_PRELOAD=ctx.bins["shim"], HDW_SHIM_DEFAULT="fail"))
     for doc in ["", "{", "[]", "null", json.dumps(TYPED), '{"nonce":-1}', "\xff"]:
         for sub in (["sign", "--mnemonic", phrase, "transaction", "-"], ["sign", "--mnemonic", phrase, "typeddata", "-"], ["hash", "typeddata", "-"],
                     ["hash", "transaction", "-"], ["sign", "--mnemonic", phrase, "message", "-"], ["hash", "data", "-"]):
